@@ -298,6 +298,59 @@ theorem c14_loop_keeps_length (cfg : Cfg) (verdict : String → Option Bool) (sy
     (st : LoopSt) : (runSyms cfg verdict st syms).code.length = st.code.length :=
   length_runSyms cfg verdict syms st
 
+/-! ## module type detection (genuine defect: endbr64 + NOP is not recognised) -/
+
+/-- Repaired code (`detectType` = `detectTypeG true`): detection agrees with the
+    patcher.  If some local/global function whose name does not start with '_'
+    has a prologue that `patch_fentry_code` accepts (a NOP pattern, after an
+    optional endbr64), a module without a patchable/xray section is classified
+    DYNAMIC_FENTRY_NOP, so its selected functions do get patched. -/
+theorem c14_detect_agrees_with_patcher (c : Code) (syms : List DSym) (fb : DynType) (s : DSym)
+    (hs : s ∈ syms) (hlg : s.lg = true) (hname : s.name.toList.head? ≠ some '_')
+    (hp : isNopPrologue c (prologueOff c s.addr) = true) :
+    detectType none c syms fb = .fentryNop := by
+  have hany : syms.any (scanHit true c) = true := by
+    rw [List.any_eq_true]
+    refine ⟨s, hs, ?_⟩
+    simp [scanHit, hlg, hp, hname]
+  simp [detectType, detectTypeG, hany]
+
+example : ∃ (c : Code) (s : DSym), s.lg = true ∧ s.name.toList.head? ≠ some '_' ∧
+    isNopPrologue c (prologueOff c s.addr) = true :=
+  ⟨[0xf3, 0x0f, 0x1e, 0xfa, 0x0f, 0x1f, 0x44, 0x00, 0x00, 0xc3], ⟨"f", 0, true⟩, rfl, by decide, by decide⟩
+
+/-- The repair only adds the endbr64 case: on images where no scanned symbol
+    starts with endbr64 the repaired and the current detection coincide. -/
+theorem c14_detect_fix_conservative (sect : Option DynType) (c : Code) (syms : List DSym)
+    (fb : DynType) (h : ∀ s ∈ syms, matchAt c s.addr endbr64 = false) :
+    detectTypeG false sect c syms fb = detectTypeG true sect c syms fb := by
+  have : ∀ s ∈ syms, scanHit false c s = scanHit true c s := by
+    intro s hs
+    simp [scanHit, prologueOff, h s hs]
+  have hany : syms.any (scanHit false c) = syms.any (scanHit true c) := by
+    clear h
+    induction syms with
+    | nil => rfl
+    | cons a r ih =>
+      simp only [List.any_cons]
+      rw [this a List.mem_cons_self, ih (fun s hs => this s (List.mem_cons_of_mem _ hs))]
+  simp only [detectTypeG, hany]
+
+/-- Pre-fix witness (the code as it is, `fixed = false`): a module built with
+    `-pg -mfentry -mnop-mcount -fcf-protection` — every function is
+    `endbr64; nopl 0(%rax,%rax,1)` — is classified DYNAMIC_NONE, so nothing is
+    patched, although patch_fentry_code itself would accept the very same
+    prologue. -/
+theorem c14_prefix_endbr_nop_undetected_witness :
+    let c : Code := [0xf3, 0x0f, 0x1e, 0xfa, 0x0f, 0x1f, 0x44, 0x00, 0x00, 0x55, 0xc3]
+    let syms : List DSym := [⟨"f", 0, true⟩]
+    detectTypeG false none c syms .none = .none ∧
+    detectTypeG true none c syms .none = .fentryNop ∧
+    (patchFunc .fentryNop 0 11 c 0x401000 0 0x401ff0).2 = .success ∧
+    (patchFunc (detectTypeG false none c syms .none) 0 11 c 0x401000 0 0x401ff0) = (c, .failed) := by
+  decide
+
+
 /-! ## W^X -/
 
 /-- After mcount_dynamic_update (setup + patch + freeze) no page that the update
